@@ -276,4 +276,66 @@ theorem splitCellData_content {α} (cs : List (Nat × List Nat)) (vals : List α
   rw [this]
   rfl
 
+/-! ### VTP: row slicing, index ranges, cell data -/
+
+theorem vtpRowsFrom_flatten (pre : List Nat) (rows : List (List Nat)) :
+    vtpRowsFrom (pre ++ rows.flatten) (rowOffsetsFrom rows pre.length) pre.length = rows := by
+  induction rows generalizing pre with
+  | nil => rfl
+  | cons r rs ih =>
+    have h := ih (pre ++ r)
+    simp only [List.length_append, List.append_assoc] at h
+    simp only [rowOffsetsFrom, vtpRowsFrom, List.flatten_cons, h, Nat.add_sub_cancel_left]
+    rw [List.drop_left' rfl, List.take_left' rfl]
+
+theorem vtpRows_flatten (rows : List (List Nat)) : vtpRows rows.flatten (rowOffsetsFrom rows 0) = rows := by
+  have := vtpRowsFrom_flatten [] rows
+  simpa [vtpRows] using this
+
+theorem vtpLayout_from (secs : List (Nat × List (List Nat))) (start : Nat) :
+    ((((vtpArrays secs).filter (fun s => 0 < s.2.1)).zip
+        (vtpIndexRanges (((vtpArrays secs).filter (fun s => 0 < s.2.1)).map (·.2.1)) start)).map
+      (fun sr => (sr.1.1, vtpRows sr.1.2.2.1 sr.1.2.2.2, sr.2))) = vtpContentFrom secs start := by
+  induction secs generalizing start with
+  | nil => rfl
+  | cons s ss ih =>
+    by_cases h0 : s.2.length = 0
+    · have := ih start
+      simp only [vtpArrays, List.map_cons, vtpContentFrom, h0, if_true] at this ⊢
+      simpa [List.filter_cons, h0] using this
+    · have hpos : 0 < s.2.length := Nat.pos_of_ne_zero h0
+      have := ih (start + s.2.length)
+      simp only [vtpArrays, List.map_cons, vtpContentFrom, h0, if_false] at this ⊢
+      simp only [List.filter_cons, hpos, decide_true, if_true, List.map_cons, vtpIndexRanges,
+        List.zip_cons_cons, vtpRows_flatten]
+      rw [this]
+
+theorem gather_append_range {α} (pre vals : List α) (n : Nat) (h : n ≤ vals.length) :
+    gather (pre ++ vals) ((List.range n).map (pre.length + ·)) = some (vals.take n) := by
+  have := gather_range (pre ++ vals) n pre.length (by
+    rw [List.drop_left' rfl, List.length_take]; omega)
+  rw [this, List.drop_left' rfl]
+
+theorem splitCellData_vtpContentFrom {α} (secs : List (Nat × List (List Nat))) (pre vals : List α)
+    (hl : vals.length = (secs.map (·.2.length)).sum) :
+    splitCellData (pre ++ vals) (vtpContentFrom secs pre.length) = some (vtpCellDataContent secs vals) := by
+  induction secs generalizing pre vals with
+  | nil => rfl
+  | cons s ss ih =>
+    simp only [List.map_cons, List.sum_cons] at hl
+    by_cases h0 : s.2.length = 0
+    · simp only [vtpContentFrom, vtpCellDataContent, h0, if_true]
+      exact ih pre vals (by omega)
+    · have hn : s.2.length ≤ vals.length := by omega
+      have hrec := ih (pre ++ vals.take s.2.length) (vals.drop s.2.length) (by
+        rw [List.length_drop]; omega)
+      have hlen : (pre ++ vals.take s.2.length).length = pre.length + s.2.length := by
+        rw [List.length_append, List.length_take]; omega
+      rw [hlen, List.append_assoc, List.take_append_drop] at hrec
+      unfold splitCellData at hrec ⊢
+      simp only [Option.bind_eq_bind] at hrec
+      simp only [vtpContentFrom, vtpCellDataContent, h0, if_false, List.mapM_cons,
+        gather_append_range pre vals _ hn, Option.bind_eq_bind, Option.bind_some, hrec]
+      rfl
+
 end Fc
